@@ -174,6 +174,8 @@ def itemB (m : Nat) : Item → Bool
       && (payload p).all (fun b => decide (b < 256) && oddPar b)
   | .foreign m' k p => (m' != m) && decide (m' < 8) && decide (k < 32) && (a16 p 0 == some (m' + 8 * k))
       && (k != 0 || (a16 p 2).isSome)
+  | .ownx k p => decide (m < 8) && decide (k < 32) && (a16 p 0 == some (m + 8 * k)) && decide (26 ≤ k) && decide (k ≤ 29)
+      && (k != 28 || a8 p 2 != some 3)
 
 theorem itemPlain_of_dec (m : Nat) (it : Item) (h : itemB m it = true) : ItemPlain m it := by
   cases it with
@@ -189,6 +191,14 @@ theorem itemPlain_of_dec (m : Nat) (it : Item) (h : itemB m it = true) : ItemPla
     rcases h5 with h5 | h5
     · exact absurd hk h5
     · exact Option.isSome_iff_exists.mp h5
+  | ownx k p =>
+    simp only [itemB, Bool.and_eq_true, decide_eq_true_eq, beq_iff_eq, bne_iff_ne, ne_eq, Bool.or_eq_true] at h
+    obtain ⟨⟨⟨⟨⟨h1, h2⟩, h3⟩, h4⟩, h5⟩, h6⟩ := h
+    refine ⟨⟨h1, h2, h3⟩, h4, h5, ?_⟩
+    intro hk
+    rcases h6 with h6 | h6
+    · exact absurd hk h6
+    · exact h6
 
 def segOkB (tmpl : List Nat) (off m : Nat) (x : Seg) : Bool :=
   (x.t.m == m) && decide (x.t.m < 8) && (a16 x.hdr 0 == some x.t.m) && (a16 x.hdr 2 == some x.t.page)
